@@ -880,6 +880,41 @@ func (e *exprEnv) call(n *ast.CallExpr) (cval, error) {
 			ks := B.sortOf(mt.Key())
 			ps := arrOf("(Array " + ks + " Bool)")
 			return cval{term: fmt.Sprintf("(and (not (= %s 0)) (select (select %s %s) %s))", m.term, t.get(e.st, mapPArr(mt), ps), m.term, k.term), typ: boolT}, nil
+		case "callarg":
+			// callarg(Callee, ordinal, argIndex): an argument of a call in this function (receiver is argument 0 of a method call)
+			id, ok := n.Args[0].(*ast.Ident)
+			if !ok || len(n.Args) != 3 {
+				return cval{}, fmt.Errorf("callarg(Callee, ordinal, argIndex)")
+			}
+			o1, _ := n.Args[1].(*ast.BasicLit)
+			o2, _ := n.Args[2].(*ast.BasicLit)
+			if o1 == nil || o2 == nil {
+				return cval{}, fmt.Errorf("callarg: literal ordinals required")
+			}
+			ord, _ := strconv.Atoi(o1.Value)
+			ai, _ := strconv.Atoi(o2.Value)
+			recs := e.f.callLog[id.Name]
+			if ord >= len(recs) {
+				// not executed yet on any path to this point: an unconstrained value (guard with called(...))
+				if c := e.f.findCall(id.Name); c != nil {
+					var tps []types.Type
+					if c.Call.IsInvoke() {
+						tps = append(tps, c.Call.Value.Type())
+					}
+					for _, a := range c.Call.Args {
+						tps = append(tps, a.Type())
+					}
+					if ai < len(tps) {
+						return cval{term: B.declConst(B.fresh("nocall"), B.sortOf(tps[ai])), typ: tps[ai]}, nil
+					}
+				}
+				return cval{}, fmt.Errorf("callarg(%s, %d, %d): no such call", id.Name, ord, ai)
+			}
+			if ai >= len(recs[ord].args) {
+				return cval{}, fmt.Errorf("callarg(%s, %d, %d): no such argument", id.Name, ord, ai)
+			}
+			av := recs[ord].args[ai]
+			return cval{term: e.f.termOfVal(av), typ: recs[ord].argT[ai]}, nil
 		case "callres", "called":
 			// callres(Callee[, ordinal[, resultIndex]]) / called(Callee[, ordinal]): the result / reach condition of a call in this function
 			id, ok := n.Args[0].(*ast.Ident)
@@ -904,7 +939,10 @@ func (e *exprEnv) call(n *ast.CallExpr) (cval, error) {
 				if name == "called" {
 					return cval{term: "false", typ: boolT}, nil
 				}
-				return cval{}, fmt.Errorf("callres(%s, %d): no such call before this point", id.Name, ord)
+				if tp := top.callResType(id.Name, ord, ridx); tp != nil {
+					return cval{term: B.declConst(B.fresh("nocall"), B.sortOf(tp)), typ: tp}, nil
+				}
+				return cval{}, fmt.Errorf("callres(%s, %d): no such call", id.Name, ord)
 			}
 			rec := recs[ord]
 			if name == "called" {
@@ -1538,8 +1576,8 @@ func selectPatterns(body, qv string) []string {
 		if !ok {
 			continue
 		}
-		if args[1] != qv || strings.Contains(args[0], "?") {
-			continue
+		if args[1] != qv || strings.Contains(args[0], "?") || strings.Contains(args[0], "(ite ") || strings.Contains(args[0], "(and ") || strings.Contains(args[0], "(not ") {
+			continue // not a legal / useful E-matching pattern
 		}
 		t := body[start : end+1]
 		if !seen[t] {
@@ -1617,4 +1655,27 @@ func quantBody(facts []string, body string, existential bool) string {
 		return and(and(fs...), body)
 	}
 	return implies(and(fs...), body)
+}
+
+
+// findCall returns the first call instruction to a callee with the given short name.
+func (f *frame) findCall(name string) *ssa.Call {
+	for _, b := range f.fn.Blocks {
+		for _, in := range b.Instrs {
+			c, ok := in.(*ssa.Call)
+			if !ok {
+				continue
+			}
+			n := ""
+			if c.Call.IsInvoke() {
+				n = c.Call.Method.Name()
+			} else if fn := c.Call.StaticCallee(); fn != nil {
+				n = fn.Name()
+			}
+			if n == name {
+				return c
+			}
+		}
+	}
+	return nil
 }
